@@ -379,6 +379,21 @@ def f_ole_vector_count(n):
     return "doc", out, len(out)
 
 
+def f_xls_many_blip_headers(n):
+    """Workbook stream followed (after the last sheet's EOF) by n/16 back-to-back OfficeArt BLIP record headers (JPEG blip, 8 bytes
+    each) that all declare a payload of n/2 bytes - it fits into the stream, every header lies inside its predecessors' declared
+    extent, and no payload is a picture.  A scanner that trusts a header it has judged skips to the end after the first one; one that
+    re-visits the spanned headers copies (number of headers) x (declared length): quadratic in the file size, nothing extracted."""
+    from vlib.gen import cfb, docs
+    data, _ = docs.build("xls", 1)
+    streams = dict(cfb.read_cfb(data))
+    name = "Workbook" if "Workbook" in streams else "Book"
+    hdr = struct.pack("<HHI", 0x46A0, 0xF01D, n // 2)
+    streams[name] = streams[name] + hdr * (n // 16) + b"\x00" * (n // 2 + 64)
+    out = cfb.make_cfb(streams)
+    return "xls", out, len(out)
+
+
 def f_ppt_nested_slide_lists(n):
     """'PowerPoint Document' stream whose SlideListWithText containers are nested n deep around one slide's text."""
     from vlib.gen import cfb, docs
@@ -619,6 +634,7 @@ FAMILIES = {
     "pdf-many-pages": (f_pdf_many_pages, [80, 320, 1_280], "size"),
     "pdf-page-tree-cycle": (f_pdf_kids_cycle, [5, 10, 20, 40], "size"),
     "ole-property-vector-count": (f_ole_vector_count, [1 << 20, 1 << 21, 1 << 22, 1 << 23], "count"),
+    "xls-many-blip-headers": (f_xls_many_blip_headers, [300_000, 600_000, 1_200_000], "size"),
     "ppt-nested-slide-lists": (f_ppt_nested_slide_lists, [250, 500, 1_000, 2_000], "size"),
     "zip-many-small-members": (f_zip_many_small_members, [500, 2_000, 8_000], "size"),
     "tar-many-small-members": (f_tar_many_small_members, [500, 2_000, 8_000], "size"),
@@ -773,6 +789,21 @@ def work_limit(case):
     which = case["which"]
     out = {"which": which, "label": case["label"]}
     import gc
+    if case.get("before"):
+        # the process has a history: an archive with a member of the same size was read under another configuration first
+        # (a limit lowered or raised *later* must be the one that counts - nothing about a size may be remembered)
+        from sharepoint2text.parsing.extractors.archive_extractor import configure_archive_extraction
+        from vlib.gen import archives
+        b = case["before"]
+        if b.get("configure"):
+            configure_archive_extraction(**b["configure"])
+        for layout in b["layouts"]:
+            first = archives.build(layout, [{"name": "first.txt", "data": b"qo00009z " + b"1" * (b["member_size"] - 9)}])
+            try:
+                out.setdefault("before_results", []).append(sum(1 for _ in obs.extractor("zip")(io.BytesIO(first), "dir/first" + archives.ext_of(layout))))
+            except Exception as e:
+                out.setdefault("before_results", []).append(f"raised:{type(e).__name__}")
+            del first
     if case.get("configure"):
         # the public, process-global configuration call first: every documented cap that is not the configured one stays where it is
         from sharepoint2text.parsing.extractors.archive_extractor import configure_archive_extraction
@@ -914,6 +945,13 @@ def main(run):
         limits.append({"part": "limit", "which": "7z-size", "size": 100 * MIB + 1, "configure": cfg, "label": "7z size 100MiB+1" + lab, "expect": "too-large"})
         limits.append({"part": "limit", "which": "7z-size", "size": 100 * MIB, "configure": cfg, "label": "7z size 100MiB" + lab, "expect": "not-too-large"})
         limits.append({"part": "limit", "which": "read_file", "limit": None, "size": 100 * MIB + 1, "sparse": True, "configure": cfg, "label": "default limit,size=100MiB+1" + lab, "expect": "too-large"})
+    # ... and a limit changed after archives with members of the very same size were read (lowered: what was allowed before is skipped now;
+    # raised: what was skipped before is extracted now), the first archive in the same and in another container format
+    for layout, others in (("zip-deflated", ["zip-deflated", "tar"]), ("tar", ["zip-stored"]), ("tar.gz", ["tar.gz", "zip-deflated"])):
+        limits.append({"part": "limit", "which": "member-limit", "layout": layout, "member_size": 2 * MIB, "before": {"configure": None, "layouts": others, "member_size": 2 * MIB},
+                       "configure": {"max_memory_size": MIB}, "label": f"{layout} member of 2MiB after members of 2MiB were read under the default limit and the limit was lowered to 1MiB", "expect": "skipped"})
+        limits.append({"part": "limit", "which": "member-limit", "layout": layout, "member_size": 2 * MIB, "before": {"configure": {"max_memory_size": MIB}, "layouts": others, "member_size": 2 * MIB},
+                       "configure": {"max_memory_size": 10 * MIB}, "label": f"{layout} member of 2MiB after members of 2MiB were skipped under a 1MiB limit and the limit was raised to 10MiB", "expect": "extracted"})
     limits.append({"part": "limit", "which": "member-limit", "layout": "zip-deflated", "member_size": 1 * MIB + 1, "configure": {"max_memory_size": MIB}, "label": "zip-deflated member of 1MiB+1 after configure_archive_extraction(max_memory_size=1MiB)", "expect": "skipped"})
     limits.append({"part": "limit", "which": "member-limit", "layout": "zip-deflated", "member_size": 1 * MIB, "configure": {"max_memory_size": MIB}, "label": "zip-deflated member of 1MiB after configure_archive_extraction(max_memory_size=1MiB)", "expect": "extracted"})
     limits.append({"part": "limit", "which": "member-limit", "layout": "zip-deflated", "member_size": 10 * MIB + 1, "configure": {"max_memory_size": 32 * MIB}, "label": "zip-deflated member of 10MiB+1 after configure_archive_extraction(max_memory_size=32MiB)", "expect": "extracted"})
@@ -948,7 +986,7 @@ def main(run):
                 seen.append(key)
                 run.violation(key, f"{lab}: outcome {oc}, expected {exp}", rep)
         else:
-            fam = ("7z" if case["layout"].startswith("7z") else case["layout"]) + ("-after-configure" if case.get("configure") else "")
+            fam = ("7z" if case["layout"].startswith("7z") else case["layout"]) + ("-after-reconfigure" if case.get("before") else "-after-configure" if case.get("configure") else "")
             if case["expect"] == "skipped":
                 if ob.get("big_in_results"):
                     key = f"C12:limit:{fam}-member:oversize-member-produced-result"
@@ -1013,7 +1051,7 @@ def main(run):
     run.extras["measurements"] = table
     run.count("families_measured", sum(1 for f in table if len([r for r in table[f]]) >= 3))
     run.require("families_measured", run.counters["families_measured"], len(FAMILIES) - 1)
-    run.require("limit_probes", sum(1 for s in run.distinct if s.startswith("limit:")), 37)
+    run.require("limit_probes", sum(1 for s in run.distinct if s.startswith("limit:")), 43)
 
 
 def replay(run, doc):
